@@ -390,6 +390,13 @@ var hdTargets = []mgTarget{
 	{"pkg/handler/reverseproxy.go", "ReverseProxy.Handler", "proxyHandler"},
 	{"pkg/handler/reverseproxy.go", "getSessionWithValidToken", "getSessionWithValidToken"},
 	{"pkg/handler/reverseproxy.go", "handleAutologin", "handleAutologin"},
+	{"pkg/handler/reverseproxy.go", "NewReverseProxy#Rewrite", "proxyRewrite"},
+	{"pkg/handler/reverseproxy.go", "NewReverseProxy#ErrorHandler", "proxyErrorHandler"},
+	{"pkg/handler/reverseproxy.go", "NewUpstreamProxy", "newUpstreamProxy"},
+	{"pkg/middleware/context.go", "WithAccessToken", "mwWithAccessToken"},
+	{"pkg/middleware/context.go", "AccessTokenFrom", "mwAccessTokenFrom"},
+	{"pkg/middleware/context.go", "WithIdToken", "mwWithIdToken"},
+	{"pkg/middleware/context.go", "IdTokenFrom", "mwIdTokenFrom"},
 	{"pkg/handler/handler_sso_proxy.go", "SSOProxy.GetSSOServerURL", "proxyGetSSOServerURL"},
 	{"pkg/handler/handler_sso_proxy.go", "SSOProxy.Login", "proxyLogin"},
 	{"pkg/handler/handler_sso_proxy.go", "SSOProxy.LoginCallback", "proxyLoginCallback"},
@@ -578,11 +585,31 @@ func genSkeletons(file, ns, section, comment, imports string, declTypes bool, ta
 					continue
 				}
 				name, _, _ := funcLeanName(fd)
-				if name != t.fn {
+				want, lit := t.fn, ""
+				if i := strings.Index(t.fn, "#"); i >= 0 { // "Func#Key": the function literal given for field Key of a composite literal inside Func
+					want, lit = t.fn[:i], t.fn[i+1:]
+				}
+				if name != want {
 					continue
 				}
-				found = true
-				ops = mgStmts(fset, fd.Body.List)
+				if lit == "" {
+					found = true
+					ops = mgStmts(fset, fd.Body.List)
+					continue
+				}
+				ast.Inspect(fd.Body, func(n ast.Node) bool {
+					kv, ok := n.(*ast.KeyValueExpr)
+					if !ok {
+						return true
+					}
+					if id, ok := kv.Key.(*ast.Ident); ok && id.Name == lit {
+						if fl, ok := kv.Value.(*ast.FuncLit); ok && !found {
+							found = true
+							ops = mgStmts(fset, fl.Body.List)
+						}
+					}
+					return true
+				})
 			}
 		}
 		if !found {
